@@ -176,9 +176,10 @@ func (dcw *DeferredCarWriter) writer() (carstorage.WritableCar, error) {
 				dcw.closed = true
 			} else if dcw.f != nil {
 				// Do not leave a partly written header behind, nor its descriptor open: the
-				// next Put starts the file afresh, and a Close without one leaves no file.
+				// next Put starts the file afresh. The file is emptied, as opening it did,
+				// rather than removed: the directory entry may not be ours.
+				dcw.f.Truncate(0)
 				dcw.f.Close()
-				os.Remove(dcw.outPath)
 				dcw.f = nil
 			}
 			return nil, err
